@@ -149,10 +149,10 @@ func (d *Decls) zero(t types.Type) string {
 		return app("mk_"+string(s), args...)
 	case *types.Slice:
 		es := d.sortOf(u.Elem())
-		return fmt.Sprintf("(mk_%s ((as const (Array Int %s)) %s) 0)", s, es, d.zero(u.Elem()))
+		return fmt.Sprintf("(mk_%s %s 0)", s, d.constArray("Int", es, d.zero(u.Elem())))
 	case *types.Array:
 		es := d.sortOf(u.Elem())
-		return fmt.Sprintf("((as const (Array Int %s)) %s)", es, d.zero(u.Elem()))
+		return d.constArray("Int", es, d.zero(u.Elem()))
 	}
 	return "0"
 }
@@ -212,4 +212,18 @@ func intRange(t types.Type) (string, string, bool) {
 func isUnsigned(t types.Type) bool {
 	b, ok := types.Unalias(t).Underlying().(*types.Basic)
 	return ok && b.Info()&types.IsUnsigned != 0
+}
+
+// constArray: an array holding v everywhere. Solvers accept (as const ...)
+// only for value literals; for other element terms a named constant with an
+// axiom is used.
+func (d *Decls) constArray(ks string, es Sort, v string) string {
+	switch v {
+	case "0", "false", "true", "0.0", "unit", "inil":
+		return fmt.Sprintf("((as const (Array %s %s)) %s)", ks, es, v)
+	}
+	name := sanitize("constarr." + ks + "." + sortMangle(es) + "." + fmt.Sprint(hashStr(v)))
+	d.raw("c."+name, fmt.Sprintf("(declare-const %s (Array %s %s))", name, ks, es))
+	d.raw("ax."+name, fmt.Sprintf("(assert (forall ((i %s)) (! (= (select %s i) %s) :pattern ((select %s i)))))", ks, name, v, name))
+	return name
 }
